@@ -594,6 +594,15 @@ def stream_of(grp, name):
     return name
 
 
+EXPECTED_BRANCHES = (
+    ["inc-jump-rz", "inc-next-level", "inc-rx+1", "inc-ry+1", "inc-rz+1", "max-all-max", "max-mx-min", "max-my-min", "max-mz-min"]
+    + ["amr-depth-%d" % i for i in range(0, 9)] + ["amr-out-of-range", "amr-out-of-range-child"]
+    + ["cart-%s-%s%s" % (a, b, c) for a in ("absorbed", "escaped") for b in ("1cell", "multi") for c in ("", "-periodic")]
+    + ["cart-in-range", "cart-out-of-range", "cart-tau-exactly-zero", "cart-edge-or-corner-crossing", "cart-periodic-wrap",
+       "cart-corrected-last-step"] + ["cart-ngb-boundary-%d" % i for i in range(0, 7)]
+    + ["pl-all-blocks", "pl-covered"] + ["pl-level-%d" % i for i in range(0, 5)])
+
+
 def tally(ctx, ops, model, nontrivial=lambda op, ml: True):
     for op, ml in zip(ops, model):
         ctx.count()
@@ -619,6 +628,9 @@ LOCAL_FINDINGS = [
      "CartesianDensityGrid::get_cell_indices: for a position inside the half-open box but within one ulp (at box scale) of a "
      "top face, (p-anchor)*inverse_cellside rounds up to ncell: get_cell_index returns the long index of a different cell "
      "(or one past the end) and interact() aborts with 'Photon leaves the system immediately'"),
+    ("C16", "amrdensitygrid:locate-index-out-of-range",
+     "same defect as amr:locate-index-out-of-range seen through AMRDensityGrid::get_cell_index (wrong child / out-of-bounds "
+     "read for a position exactly on a block wall of a grid whose block count has an odd factor)"),
     ("C16", "amr:locate-index-out-of-range",
      "AMRGrid::get_key/get_cell compute the block index as n*(p-a)/S but the block anchor as a+i*(S/n): for block counts "
      "with odd factors a position exactly on an interior block wall (or within one ulp below the top face) gets child "
@@ -640,10 +652,14 @@ def run(ctx):
     ctx.level = "proof"
     install_local_findings()
     ctx.assumptions += [
-        "Voronoi grids are not covered (C15 not applicable); Octree radius searches are compared with brute force only (no theorem)",
-        "theorems are about exact arithmetic (Nat/Int, and ordered-field arithmetic for the geometric parts); IEEE rounding is not modelled, the tie is the differential run on doubles",
-        "max_range_is_last / increase_range_next are stated for cubic bucket grids (sx = sy = sz), the only ones the PointLocations constructor builds; set_max_range is wrong for some non-cubic sizes (Lean counterexample 5x1x3, anchor (2,0,2))",
-        "increase_range_next proves that SOME fuel suffices for the skipping loop; the driver's fuel (2*mlevel+3)^3 is checked by the run (an exhausted fuel prints 'range fuel-out')",
+        "Voronoi grids are not covered (C15 not applicable); AMRDensityGrid::interact and the Octree searches are checked by implementation-level oracles only (no Lean model)",
+        "theorems are about exact arithmetic (Nat/Int for keys and traversals, real numbers for the geometric parts); IEEE rounding is not modelled, the tie is the bit-exact differential run on doubles",
+        "AMR keys: depth <= 10 and <= 1024 blocks per axis (the widths of the 32+32 bit key); the C++ shifts `cell << 3*level` overflow int beyond that",
+        "max_range_is_last / increase_range_next are for cubic bucket grids (sx = sy = sz), the only ones the PointLocations constructor builds; set_max_range is wrong for some non-cubic sizes (Lean counterexample 5x1x3, anchor (2,0,2))",
+        "nearest_is_bruteforce(_partial): the covered-radius bound is a hypothesis (derived in nearest_covered_radius_bound from: every stored point lies in the cell of its bucket, the query lies in its anchor cell); fuel of the model loops not exhausted (checked by the run: an exhausted fuel is printed)",
+        "cartesian_path_sum holds for every loop fuel; termination is not claimed (a periodic grid without opacity loops forever in the C++ as well) — generators keep opacities positive on periodic grids",
+        "a single cell across a periodic axis of an AMRDensityGrid is its own neighbour: the traversal never wraps the position and spins with ds = 0 (degenerate configuration, reported, not generated)",
+        "positions within one ulp of a top face / exactly on AMR block walls with odd block counts hit genuine index-range defects of the code (KNOWN-FINDING lines); the exact-arithmetic theorems show the indices are in range",
     ]
     ok = ctx.obligations("CMacVerif.Props.C16", ["drv_c16"])
     h = vlib.build_harness("c16", **harness_kw())
@@ -663,8 +679,10 @@ def run(ctx):
     ]
     if corpus:
         streams.insert(0, ("corpus", corpus))
-    ctx.cov["rule"] = ("distinct = different op line; non-trivial = the model answer carries a branch tag other than the default "
-                       "(morton: any coordinate; shells/range: level >= 1; maxrange: anchor not in the grid centre)")
+    ctx.cov["rule"] = ("one evaluation = one op line answered by implementation and model; distinct = different op text; "
+                       "non-trivial = every line (each op exercises at least one modelled function on generated data); "
+                       "branch_histogram = model branch tags (increase_indices branch, set_max_range choice, AMR leaf depth, "
+                       "Cartesian ray outcome x cells x periodicity, neighbour boundary count, bucket search exit and level)")
     if not ok:
         return
     for name, ops in streams:
@@ -676,6 +694,10 @@ def run(ctx):
         tally(ctx, ops, model)
         if impl:
             ctx.sample({"stream": name, "op": ops[0], "impl": impl[0]})
+    missing = [b for b in EXPECTED_BRANCHES if b not in ctx.cov["branch_histogram"]]
+    ctx.cov["missing_branches"] = missing
+    if missing and ctx.thorough:
+        ctx.notes.append("coverage gate: model branches never taken in this run (insufficient evidence, not a violation): " + ", ".join(missing))
     ctx.cov["tolerance"] = "discrete outputs identical; doubles relative %g" % REL
     ctx.cov["bit_exact_rate"] = (STATS["bitexact"] / STATS["lines"]) if STATS["lines"] else None
 
@@ -686,6 +708,38 @@ def replay(ctx, path):
 
 MANIFEST = dict(
     category="proof",
-    text="(slice 1) Lean theorems: Morton key loop = bit interleaving, injective and strictly monotone per coordinate; increase_indices visits every integer offset exactly once in (max-norm, lexicographic) order; set_max_range returns the last block inside a cubic bucket grid and increase_range stops on the next inside block.",
-    note="Trusted: Lean kernel + 3 axioms; hand models tied to the code by exact differential runs.",
-    technique="Lean 4 proofs (omega / induction) + exact differential correspondence")
+    text=("Lean 4 theorems, all with unbounded quantifiers. Cartesian grid: every position of the half-open box lies in exactly one "
+          "cell, the one get_cell_indices returns, and its long index converts back (cartesian_unique_cell); cell volumes sum to the box "
+          "(cartesian_volumes); neighbour relations are mutual incl. periodic wrap (cartesian_neighbours_mutual); interact, for every "
+          "grid / medium / ray / optical depth and every number of loop iterations: sum path*direction = displacement up to whole box "
+          "lengths on periodic axes only, absorbed <=> final cell index inside the grid, absorbed => sum kappa*path = tau exactly, "
+          "escaped => sum kappa*path = tau - remaining with remaining >= 0 (cartesian_path_sum); get_wall_intersection returns a "
+          "non-negative distance to the wall(s) named by the index offsets, inside the closed cell (cartesian_wall_intersection); "
+          "through wall, edge, corner crossings and periodic wraps the position stays in the closed box of the current cell, every "
+          "recorded path is >= 0 and credited to a cell of the grid, an absorbed photon ends inside the box (cartesian_segments). AMR grid: key <-> (level, path) "
+          "bijection and 64-bit block/cell split (amr_key_roundtrip); get_first_key/get_next_key visit every leaf exactly once in Morton "
+          "order for EVERY tree of depth <= 10 (hence every tree reachable by refinements) and every block layout <= 1024 per axis "
+          "(amr_enumeration, amr_enumeration_grid, induction on the tree); refine (amr_refine); leaf volumes sum to the box "
+          "(amr_volumes_sum); descent by position ends in the unique leaf whose box contains it, all indices in range (amr_contains). "
+          "Bucket search: increase_indices visits every integer offset exactly once, level = max-norm, levels ascending "
+          "(shells_exactly_once); set_max_range returns the last block of a cubic grid (max_range_is_last); increase_range stops on the "
+          "next block inside the grid and never skips a level (increase_range_next); get_closest_neighbour returns the brute-force "
+          "nearest neighbour (nearest_is_bruteforce_partial under the covered-radius hypothesis, which nearest_covered_radius_bound "
+          "derives from 'points lie in their buckets, query in its anchor cell'). Morton keys: loop = bit interleaving, injective, "
+          "strictly monotone per coordinate. Tie: the same Lean definitions (Float instance) and the real classes run on identical "
+          "inputs (random boxes, block counts with odd factors, positions on cell walls and box faces, refinement histories to depth "
+          "8, all periodicity flags, axis-aligned/diagonal/generic rays, exact optical-depth ties, random and clustered point sets); "
+          "all answers bit-identical; the property oracles are evaluated on the implementation (containment and uniqueness of the "
+          "located cell, sum of volumes, enumeration exactly once, neighbour mutuality, sum path = distance, optical depth "
+          "accounting, absorbed <=> tau reached, nearest/overlap search = brute force), also for AMRDensityGrid::interact and Octree "
+          "(oracle only)."),
+    note=("Trusted: Lean kernel + propext/Classical.choice/Quot.sound; hand models of the anchored functions tied by the differential run "
+          "(doubles as bit patterns, tolerance rel 1e-9, measured bit-exact rate 1.0). Theorems are about exact arithmetic: IEEE "
+          "rounding is not modelled. cartesian_segments assumes inverse direction = 1/direction, a non-zero direction and DBL_MAX "
+          "above every wall distance (RayOK). Not proved: termination of interact in periodic grids without opacity (genuinely non-terminating); "
+          "AMRDensityGrid traversal and Octree searches (oracle only); Voronoi grids (C15 not applicable). max_range_is_last needs "
+          "the cubic grid PointLocations always builds (Lean counterexample for 5x1x3). Genuine defects of /repo exposed and reported "
+          "(matched like known findings in tools/props/c16.py until moved to known_findings.txt): AMRGrid/Cartesian locate index out "
+          "of range on block walls / one ulp below a top face; AMRDensityGrid::interact reports photons absorbed in a boundary cell "
+          "as escaped; periodic wrap into a refined AMR neighbour enters the wrong child."),
+    technique="Lean 4 proofs (induction on trees / traversal / loop fuel, omega, linarith, field_simp) + bit-exact differential correspondence + implementation-level oracles")
